@@ -12,6 +12,10 @@ code-dependent part is a polynomial identity and the remaining mathematics is a 
    (C) the block objective in unfolded form is the dense objective sum (X - dense(iterate))^2 -- identity.
   HALS: (A) for the arguments of hals_nnls, plus the real hals_nnls row update == clipped exact coordinate minimiser (identity per path) and the
         1-D lemma "q(x)=a x^2-2 c x, a>0, x'=max(c/a,eps), x0>=eps  =>  q(x') <= q(x0)" (solver-proved).
+  TR-ALS / CMTF: every block update is a stationary point of the ONE dense objective in that block, derived from the lstsq/solve contract facts
+        (normal equations of the system the code handed over); CMTF over two sweeps with the matrix coupled into mode 0.
+  CP / Tucker regressors: system matrix and right-hand side of every block solve are the ridge normal equations Phi'Phi + lam I, Phi'y of the
+        one penalised objective, Phi rebuilt by the harness from the dense prediction.
   HOOI / PARAFAC2 projections: the matrix handed to the SVD is the projected unfolding / B diag(a_i) C^T X_i^T (identity); that leading singular
         vectors / the polar factor maximise the block objective is the SVD contract (Ky Fan / Procrustes, trusted).
 """
@@ -40,17 +44,19 @@ ENCODED = [
     "tensorly.solvers.nnls.hals_nnls",
     "tensorly.regression.cp_regression.CPRegressor.fit",
     "tensorly.decomposition._tr_als.tensor_ring_als",
+    "tensorly.decomposition._cmtf_als.coupled_matrix_tensor_3d_factorization",
+    "tensorly.regression.tucker_regression.TuckerRegressor.fit",
     "tensorly.tenalg.core_tenalg.mttkrp.unfolding_dot_khatri_rao",
     "tensorly.tenalg.core_tenalg._khatri_rao.khatri_rao",
 ]
 BOUNDS = {
-    "quick": "CP-ALS / HALS-CP orders 2-4 sizes 2 (one 3) rank 1-2, 2 sweeps (normalised: weights symbolic); HOOI 2x2x2, 3x2x2 ranks <= (2,2,1); PARAFAC2 2 slices of 2-3 rows rank 1-2; hals_nnls r<=2, n<=2",
+    "quick": "CP-ALS / HALS-CP orders 2-4 sizes 2 (one 3) rank 1-2, 2 sweeps (normalised: weights symbolic); HOOI 2x2x2, 3x2x2 ranks <= (2,2,1); PARAFAC2 2 slices of 2-3 rows rank 1-2; hals_nnls r<=2, n<=2; TR-ALS 2x2x2 one sweep; CMTF 2x2x2 + 2x2 rank 1-2, two sweeps; CP / Tucker regressors 3 samples of 2x2 (ranks <= (2,1)), one sweep; CP line search 2x2x2 rank 1, 7 sweeps",
     "thorough": "adds rank 3 on 3x3x3 and order 4 rank 2",
 }
 OUTSIDE = [
     "convergence; conditioning beyond non-singularity (the solve contract A x = b presupposes a unique solution)",
     "Ky Fan / Procrustes optimality of the SVD-based block updates (SVD contract)",
-    "CMTF and the Tucker regressor's ridge ALS (not encoded in this module; the CP regressor is, with at most one output mode)",
+    "CP regressor with more than one output mode; Tucker regressor on vector samples (raises: known finding of C19); CMTF beyond two sweeps / sizes (2,3,2)x3",
     "the consequence 'reported errors are non-increasing' combines this with C06",
 ]
 TRUSTED = ["z3", "solve contract (A x = b)", "SVD contract for HOOI/PARAFAC2 block optimality", "generic lemmas proved by z3 in this run (I1 per shape, 1-D clipped quadratic)"]
@@ -89,6 +95,10 @@ def configs(tier):
     for shp, rank in [((2, 2, 2), [1, 2, 1, 1]), ((2, 2, 2), [2, 1, 1, 2])] + ([] if q else [((2, 3, 2), [1, 1, 2, 1]), ((2, 2, 2), [2, 1, 2, 2])]):
         for ls in ("normal_eq", "lstsq"):
             add("tr_als", shape=shp, rank=rank, ls=ls)
+    for xs, ranks in [((2, 2), (1, 1)), ((2, 2), (2, 1))] + ([] if q else [((2, 2), (2, 2)), ((2, 3), (1, 2))]):
+        add("tucker_regressor", xs=xs, ranks=ranks, ns=3)
+    for shp, cols, R in [((2, 2, 2), 2, 1), ((2, 2, 2), 2, 2)] + ([] if q else [((2, 3, 2), 3, 2), ((3, 2, 2), 1, 2)]):
+        add("cmtf", shape=shp, cols=cols, R=R)
     add("lemma_1d")
     add("linesearch_accept", shape=(2, 2, 2), R=1, mode="fork")
     return out
@@ -620,3 +630,185 @@ def h_tr_als(E, cfg):
                     conds.append(E.eq(g, 0))
         E.prove(f"block{d}/stationary_in_updated_core", conds, groups=(kind,))
     E.prove("mirror_matches_returned_cores", [E.eq_arrays(a, b) for a, b in zip(list(res), cores)])
+
+
+# ------------------------------------------------------------------------------------ coupled matrix-tensor ALS
+def h_cmtf(E, cfg):
+    """every block update of one CMTF sweep (V, then modes 2, 1, 0 with the matrix coupled into mode 0) is a stationary point of the ONE
+    dense objective F = ||X - [[A,B,C]]||^2 + ||Y - A V^T||^2 in that block (through the lstsq contract: normal equations of the system the
+    code handed over), i.e. its exact block minimiser (F is a convex quadratic in each block; lemma_I1): a sweep cannot increase F"""
+    from vt import backend, sym
+    import tensorly.decomposition._cp as _cp
+    import tensorly.decomposition._cmtf_als as _cm
+    from props.c06 import stub_svd_interface, dense_cp
+
+    cmtf = _cm.coupled_matrix_tensor_3d_factorization
+    shp, cols, R = cfg["shape"], cfg["cols"], cfg["R"]
+    names = ["four_kernel_calls", "blockV/stationary", "block2/stationary", "block1/stationary", "block0/stationary_coupled", "mirror_matches_returned_factors"]
+    if not E.symbolic:
+        X = np.asarray(E.real("X", shp), dtype=float)
+        Y = np.asarray(E.real("Y", (shp[0], cols)), dtype=float)
+        ok = True
+        rng = np.random.RandomState(5)
+        for trial in range(12):
+            Xc = X + (rng.randn(*shp) if trial else 0)
+            Yc = Y + (rng.randn(*Y.shape) if trial else 0)
+            try:
+                import warnings
+
+                with warnings.catch_warnings():
+                    warnings.simplefilter("ignore")
+                    _, _, errs = cmtf(Xc, Yc, R, init="svd", n_iter_max=10, tol=0)
+            except Exception:
+                continue
+            errs = [float(e) for e in errs]
+            if any(np.isfinite(a) and np.isfinite(b) and b > a * (1 + 1e-7) + 1e-12 for a, b in zip(errs, errs[1:])):
+                ok = False
+        for n_ in names:
+            E.prove(n_, ok)
+        return
+    backend.configure(lstsq="contract", svd="havoc")
+    backend.patch(_cp, "svd_interface", stub_svd_interface)
+    inits = []
+    real_init = _cm.initialize_cp
+
+    def spy(*a, **k):
+        r = real_init(*a, **k)
+        inits.append([np.array(f, dtype=object) for f in r.factors])
+        return r
+
+    backend.patch(_cm, "initialize_cp", spy)
+    X = E.real("X", shp)
+    Y = E.real("Y", (shp[0], cols))
+    K_ = cfg.get("K", 2)
+    tcp, mcp, errs = cmtf(np.array(X), np.array(Y), R, init="svd", n_iter_max=K_, tol=0)
+    calls = [c for c in sym.CTX.stub_calls if c[0] == "lstsq"]
+    E.prove("four_kernel_calls", len(calls) == 4 * len(errs) and len(inits) == 2 and 1 <= len(errs) <= K_)
+    A, B, C = inits[1][0], inits[0][1], inits[0][2]
+    Xo, Yo = np.asarray(X, dtype=object), np.asarray(Y, dtype=object)
+
+    def res(A, B, C, V):
+        return Xo - dense_cp(None, [A, B, C]), Yo - matmul(A, np.asarray(V, dtype=object).T)
+
+    I, J, K = shp
+    for s_ in range(len(errs)):
+        V1, C1, B1, A1 = [np.asarray(c[2], dtype=object).T for c in calls[4 * s_ : 4 * s_ + 4]]
+        rX, rY = res(A, B, C, V1)
+        E.prove("blockV/stationary", [E.eq(sum(rY[i, c] * A[i, r] for i in range(I)), 0) for c in range(cols) for r in range(R)], groups=("lstsq",))
+        rX, rY = res(A, B, C1, V1)
+        E.prove("block2/stationary", [E.eq(sum(rX[i, j, k] * A[i, r] * B[j, r] for i in range(I) for j in range(J)), 0) for k in range(K) for r in range(R)], groups=("lstsq",))
+        rX, rY = res(A, B1, C1, V1)
+        E.prove("block1/stationary", [E.eq(sum(rX[i, j, k] * A[i, r] * C1[k, r] for i in range(I) for k in range(K)), 0) for j in range(J) for r in range(R)], groups=("lstsq",))
+        rX, rY = res(A1, B1, C1, V1)
+        E.prove(
+            "block0/stationary_coupled",
+            [E.eq(sum(rX[i, j, k] * B1[j, r] * C1[k, r] for j in range(J) for k in range(K)) + sum(rY[i, c] * V1[c, r] for c in range(cols)), 0) for i in range(I) for r in range(R)],
+            groups=("lstsq",),
+        )
+        A, B, C = A1, B1, C1
+    w, fs = tcp
+    wm, fm = mcp
+    E.prove("mirror_matches_returned_factors", [E.eq_arrays(fs[0], A), E.eq_arrays(fs[1], B), E.eq_arrays(fs[2], C), E.eq_arrays(fm[0], A), E.eq_arrays(fm[1], V1)])
+
+
+# ------------------------------------------------------------------------------------ Tucker regressor (ridge ALS)
+def _tucker_pred(X, G, W):
+    """yhat[s] = sum_x X[s, x] * sum_g G[g] prod_k W_k[x_k, g_k]"""
+    X = np.asarray(X, dtype=object)
+    G = np.asarray(G, dtype=object)
+    ns = X.shape[0]
+    out = np.empty((ns,), dtype=object)
+    for s_ in range(ns):
+        tot = 0
+        for x in np.ndindex(*X.shape[1:]):
+            wx = 0
+            for g in np.ndindex(*G.shape):
+                p = G[g]
+                for k in range(len(W)):
+                    p = p * W[k][x[k], g[k]]
+                wx = wx + p
+            tot = tot + X[(s_,) + x] * wx
+        out[s_] = tot
+    return out
+
+
+def h_tucker_regressor(E, cfg):
+    """every block update (each factor W_i, then the core G) of one sweep of TuckerRegressor.fit solves the ridge normal equations of the
+    ONE objective F = ||y - <X, [[G; W]]>||^2 + lam (sum ||W_i||^2 + ||G||^2) restricted to that block: system matrix = Phi'Phi + lam I and
+    right-hand side = Phi'y with Phi built by the harness from the dense prediction (unit basis in the block)"""
+    from vt import backend, sym
+    from tensorly.regression.tucker_regression import TuckerRegressor
+
+    xs, ranks, ns = cfg["xs"], list(cfg["ranks"]), cfg["ns"]
+    nb = len(xs) + 1
+    if not E.symbolic:
+        X = np.asarray(E.real("X", (ns,) + xs), dtype=float)
+        y = np.asarray(E.real("y", (ns,)), dtype=float)
+        lam = float(E.real("lam", pos=True))
+        ok = True
+        rng = np.random.RandomState(4)
+        for trial in range(6):
+            Xc = X + (rng.randn(*X.shape) if trial else 0)
+            yc = y + (rng.randn(*y.shape) if trial else 0)
+            for lam_c in (lam, 25.0, 0.5):
+                prev = None
+                for k in range(1, 12):
+                    try:
+                        reg = TuckerRegressor(weight_ranks=list(ranks), n_iter_max=k, tol=0, reg_W=lam_c, random_state=7, verbose=0)
+                        reg.fit(Xc.copy(), yc.copy())
+                    except Exception:
+                        break
+                    G, W = reg.tucker_weight_
+                    pred = np.asarray(_tucker_pred(Xc, np.asarray(G), [np.asarray(w) for w in W]), dtype=float)
+                    val = float(((yc - pred) ** 2).sum() + lam_c * (sum((np.asarray(w) ** 2).sum() for w in W) + (np.asarray(G) ** 2).sum()))
+                    if prev is not None and np.isfinite(val) and val > prev * (1 + 1e-7) + 1e-10:
+                        ok = False
+                    prev = val
+        for i in range(nb):
+            E.prove(f"block{i}/system_matrix_is_ridge_gram", ok)
+            E.prove(f"block{i}/rhs_is_design_transpose_times_targets", ok)
+        E.prove("one_solve_per_block", ok)
+        E.prove("mirror_matches_exposed_weights", ok)
+        return
+    backend.configure(solve="contract")
+    X = E.real("X", (ns,) + xs)
+    y = E.real("y", (ns,))
+    lam = E.real("lam", pos=True)
+    reg = TuckerRegressor(weight_ranks=list(ranks), n_iter_max=1, tol=0, reg_W=lam, random_state=7, verbose=0)
+    reg.fit(np.array(X), np.array(y))
+    calls = [c for c in sym.CTX.stub_calls if c[0] == "solve"]
+    E.prove("one_solve_per_block", len(calls) == nb)
+    rs = backend.s_check_random_state(7)
+    G = np.asarray(rs.randn(*ranks), dtype=object)
+    W = [np.asarray(rs.randn(n, ranks[k]), dtype=object) for k, n in enumerate(xs)]
+    yo = np.asarray(y, dtype=object)
+    for i in range(nb):
+        A_code, B_code = calls[i][1]
+        out = np.asarray(calls[i][2], dtype=object)
+        cols = []
+        if i < len(xs):
+            shape_i = (xs[i], ranks[i])
+            for idx in np.ndindex(*shape_i):
+                Eb = np.zeros(shape_i, dtype=object)
+                Eb[idx] = 1
+                Wt = list(W)
+                Wt[i] = Eb
+                cols.append(_tucker_pred(X, G, Wt))
+        else:
+            for idx in np.ndindex(*ranks):
+                Eb = np.zeros(tuple(ranks), dtype=object)
+                Eb[idx] = 1
+                cols.append(_tucker_pred(X, Eb, W))
+        Phi = np.stack(cols, axis=1)
+        A = matmul(Phi.T, Phi)
+        for d in range(A.shape[0]):
+            A[d, d] = A[d, d] + lam
+        b = matmul(Phi.T, yo.reshape(-1, 1))[:, 0]
+        E.prove_eq(f"block{i}/system_matrix_is_ridge_gram", A_code, A)
+        E.prove_eq(f"block{i}/rhs_is_design_transpose_times_targets", B_code, b)
+        if i < len(xs):
+            W[i] = out.reshape(xs[i], ranks[i])
+        else:
+            G = out.reshape(tuple(ranks))
+    Gc, Wc = reg.tucker_weight_
+    E.prove("mirror_matches_exposed_weights", [E.eq_arrays(Gc, G)] + [E.eq_arrays(a, b_) for a, b_ in zip(Wc, W)])
